@@ -7,6 +7,8 @@ import ast
 from tiv.astutil import body_walk, call_name, dotted, enclosing_stmt, guards, norm, short, stores_in, walk_local
 from tiv.cfg import CFG, fmt_path
 from tiv.mutate import M
+from tiv.sem import trace, expand, same, cx
+from tiv import emit, affine
 from tiv.match import b2s, find_exprs, find_stmts, match_expr, match_stmt
 from tiv.affine import NotPoly, diff, equal, parse
 
@@ -58,6 +60,32 @@ def _from_init_render(st, name):
     return isinstance(t, ast.Tuple) and len(t.elts) == 2 and norm(t.elts[1]) == name
 
 
+def _mentions(items, what) -> bool:
+    return any(what in repr(x) for x in items)
+
+
+def _szp(p_, zero):
+    """Re-normalise a count polynomial (monomials are source texts) under `zero` facts and size-attribute canonicalisation."""
+    from tiv import affine as _a
+    if not p_:
+        return {}
+    return _a.poly(_szc(ast.parse(_a.show(p_), mode="eval").body), zero)
+
+
+def _szc(e):
+    """`X.width`/`X.columns` -> X[0], `X.height`/`X.lines` -> X[1] for size-like objects (named tuples)."""
+    class T(ast.NodeTransformer):
+        def visit_Attribute(self, n):
+            self.generic_visit(n)
+            if n.attr in ("width", "columns") and "size" in norm(n.value):
+                return ast.Subscript(value=n.value, slice=ast.Constant(value=0), ctx=ast.Load())
+            if n.attr in ("height", "lines") and "size" in norm(n.value):
+                return ast.Subscript(value=n.value, slice=ast.Constant(value=1), ctx=ast.Load())
+            return n
+    from tiv.astutil import clone
+    return T().visit(clone(e))
+
+
 def run(ck, m):
     # summary of _init_render_: its second result is sanitised
     ir = m.variants(RN, "Renderable._init_render_")[-1]
@@ -68,10 +96,10 @@ def run(ck, m):
     ck.ob("R1", ir, ok_sum and len(san) == 1 and not other and san[0].lineno < rets[0].lineno,
           "summary: _init_render_ must return its (resolved) `padding` as second result, resolved by the single sanitising `if`, with no other rebinding", stmt="_init_render_: second result is the sanitised padding")
     n_sinks = 0
-    for rel in (RN, IT):
-        for q, fn in m.file(rel).defs.items():
-            if not isinstance(fn, ast.FunctionDef):
-                continue
+    for rel, q, fn in m.functions():
+        if rel not in (RN, IT):
+            continue
+        if True:
             for c in body_walk(fn):
                 if not (isinstance(c, ast.Call) and isinstance(c.func, ast.Attribute) and c.func.attr in SINKS):
                     continue
@@ -154,59 +182,69 @@ def run(ck, m):
         cs = [c for c in body_walk(f) if isinstance(c, ast.Call) and norm(c.func) == "self._get_exact_dimensions_"]
         ck.ob("R2", f, len(cs) == 1 and norm(cs[0].args[0]) == "render_size", f"Padding.{meth} must obtain the margins from self._get_exact_dimensions_(render_size)", stmt=f"Padding.{meth}: margins from _get_exact_dimensions_")
     gp = m.get(PD, "Padding.get_padded_size")
-    un = find_stmts("$$l, $$t, $$r, $$b = self._get_exact_dimensions_(render_size)", body_walk(gp))
-    uw = find_stmts("$$w, $$h = render_size", body_walk(gp))
     rt = [r for r in body_walk(gp) if isinstance(r, ast.Return) and isinstance(r.value, ast.Call) and len(r.value.args) == 2]
-    ck.expect(len(un) == 1 and len(uw) == 1 and len(rt) == 1, "Padding.get_padded_size: margins/size unpacking or return not recognised")
-    if len(un) == 1 and len(uw) == 1 and len(rt) == 1:
-        b = {**b2s(un[0][1]), **b2s(uw[0][1])}
+    ck.expect(len(rt) == 1, "Padding.get_padded_size: `return <Size>(w, h)` not recognised")
+    if len(rt) == 1:
+        D = "self._get_exact_dimensions_(render_size)"
         try:
-            okw = equal(rt[0].value.args[0], parse(f"{b['l']} + {b['w']} + {b['r']}"))
-            okh = equal(rt[0].value.args[1], parse(f"{b['t']} + {b['h']} + {b['b']}"))
+            okw = equal(_szc(trace(gp, rt[0].value.args[0])), parse(f"{D}[0] + render_size[0] + {D}[2]"))
+            okh = equal(_szc(trace(gp, rt[0].value.args[1])), parse(f"{D}[1] + render_size[1] + {D}[3]"))
         except NotPoly:
             okw = okh = False
         ck.ob("R2", rt[0], okw and okh, f"padded size must be (left+width+right, top+height+bottom); found `{short(rt[0].value, 70)}`", stmt="Padding.get_padded_size formula")
     ag = m.get(PD, "AlignedPadding.get_padded_size")
     rt = [r for r in body_walk(ag) if isinstance(r, ast.Return) and isinstance(r.value, ast.Call) and len(r.value.args) == 2]
-    ok = len(rt) == 1 and all(match_expr(pat, a) is not None or match_expr(pat2, a) is not None for a, pat, pat2 in (
+    ok = len(rt) == 1 and all(match_expr(pat, _szc(trace(ag, a))) is not None or match_expr(pat2, _szc(trace(ag, a))) is not None for a, pat, pat2 in (
         (rt[0].value.args[0], "max(self.width, render_size[0])", "max(render_size[0], self.width)"), (rt[0].value.args[1], "max(self.height, render_size[1])", "max(render_size[1], self.height)")))
     ck.ob("R2", rt[0] if rt else ag, ok, "AlignedPadding.get_padded_size must be the per-axis max of minimum and render size", stmt="AlignedPadding.get_padded_size formula")
 
     # ---- R3 ----------------------------------------------------------------------------
     rv = m.get(PD, "AlignedPadding.resolve")
-    n3 = 0
-    for s in body_walk(rv):
-        if isinstance(s, ast.If) and isinstance(s.test, ast.Compare) and len(s.body) == 1 and isinstance(s.body[0], ast.Assign):
-            d = norm(s.test.left)
-            if d in ("width", "height"):
-                n3 += 1
-                t = "terminal_" + d
-                ck.ob("R3", s, norm(s.test) == f"{d} <= 0" and norm(s.body[0]) == f"{d} = max({t} + {d}, 1)", f"resolve: `{d}` must become max({t} + {d}, 1) when <= 0; found `{short(s, 80)}`", stmt=f"resolve: {d}")
-    ck.expect(n3 == 2, "AlignedPadding.resolve: the two normalising ifs not recognised")
+    ret = [r for r in body_walk(rv) if isinstance(r, ast.Return) and isinstance(r.value, ast.Call) and norm(r.value.func) == "type(self)"]
+    ck.need(len(ret) == 1, "AlignedPadding.resolve: `return type(self)(...)` not found")
+    rcall = ret[0].value
+    ck.expect(len(rcall.args) >= 2 and not isinstance(rcall.args[0], ast.Starred) and not isinstance(rcall.args[1], ast.Starred), "AlignedPadding.resolve: width/height arguments of the rebuilt padding not recognised")
+    if len(rcall.args) >= 2 and not isinstance(rcall.args[0], ast.Starred) and not isinstance(rcall.args[1], ast.Starred):
+        for i, (d, alt) in enumerate((("width", "self.width"), ("height", "self.height"))):
+            got = trace(rv, rcall.args[i])
+            oks = False
+            for dsrc in (f"astuple(self)[{i}]", alt):
+                want = f"{dsrc} if {dsrc} > 0 else max(terminal_size[{i}] + {dsrc}, 1)"
+                oks = oks or cx(_szc(got)) == cx(ast.parse(want, mode="eval").body)
+            ck.ob("R3", ret[0], oks, f"resolve: `{d}` must become max(terminal {d} + {d}, 1) when <= 0 and stay otherwise; found `{norm(got)[:120]}`", stmt=f"resolve: {d}")
     cfm = m.get(CM, "BaseImage._check_formatting")
-    for d, t in (("width", "terminal_size.columns"), ("height", "terminal_size.lines")):
-        a = next((s for s in cfm.body if isinstance(s, ast.Assign) and norm(s.targets[0]) == d and isinstance(s.value, ast.IfExp)), None)
-        ck.ob("R3", a or cfm, a is not None and norm(a.value) == f"{d} if {d} > 0 else max({t} + {d}, 1)", f"_check_formatting: `{d}` must become max({t} + {d}, 1) when <= 0", stmt=f"_check_formatting: {d}")
+    rts = [r for r in body_walk(cfm) if isinstance(r, ast.Return) and isinstance(r.value, ast.Tuple) and len(r.value.elts) == 4]
+    ck.expect(len(rts) == 1, "_check_formatting: `return h_align, width, v_align, height` not recognised")
+    if len(rts) == 1:
+        for d, t, i in (("width", "columns", 1), ("height", "lines", 3)):
+            got = trace(cfm, rts[0].value.elts[i])
+            want = f"{d}__0 if {d}__0 > 0 else max(get_terminal_size().{t} + {d}__0, 1)"
+            ck.ob("R3", rts[0], cx(got) == cx(ast.parse(want, mode="eval").body), f"_check_formatting: `{d}` must become max(terminal_size.{t} + {d}, 1) when <= 0; found `{norm(got)[:110]}`", stmt=f"_check_formatting: {d}")
     vs = m.get(CM, "BaseImage._valid_size")
-    lam = next((n for n in body_walk(vs) if isinstance(n, ast.Lambda) and len(n.args.args) == 2), None)
-    ck.ob("R3", lam or vs, lam is not None and norm(lam.body) == "frame_dim if frame_dim > 0 else max(terminal_dim + frame_dim, 1)", "_valid_size: frame dimensions must be normalised with max(t + d, 1)", stmt="_valid_size: frame normalisation")
+    norms = [n for n in ast.walk(vs) if isinstance(n, ast.IfExp) and any(isinstance(c, ast.Call) and call_name(c) == "max" for c in ast.walk(n))]
+    okv = False
+    for n in norms:
+        b_ = match_expr("$d if $d > 0 else max($t + $d, 1)", n) or match_expr("max($t + $d, 1) if $d <= 0 else $d", n)
+        if b_ is not None:
+            # the pair (d, t) must come from zip(frame_size, get_terminal_size())
+            par = n._p
+            while par is not None and not isinstance(par, (ast.Lambda, ast.GeneratorExp, ast.ListComp, ast.FunctionDef)):
+                par = par._p
+            src = norm(par._p) if isinstance(par, ast.Lambda) else norm(par)
+            okv = "frame_size" in src and "get_terminal_size()" in src
+    ck.ob("R3", vs, okv, "_valid_size: frame dimensions must be normalised with max(t + d, 1) over (frame_size, get_terminal_size())", stmt="_valid_size: frame normalisation")
     ai = m.get(PD, "AlignedPadding.__init__")
     ck.ob("R3", ai, "_setattr('relative', not width > 0 < height)" in norm(ai), "AlignedPadding.relative must be `not width > 0 < height`", stmt="AlignedPadding.relative definition")
     # resolve() preserves the other fields
     params = [a.arg for a in ai.args.args][1:]
-    ret = [r for r in body_walk(rv) if isinstance(r, ast.Return) and isinstance(r.value, ast.Call) and norm(r.value.func) == "type(self)"]
-    ck.need(len(ret) == 1, "AlignedPadding.resolve: `return type(self)(...)` not found")
-    call = ret[0].value
+    call = rcall
     passed = set()
     star_ok = False
     for i, a in enumerate(call.args):
         if isinstance(a, ast.Starred):
-            # *args from `width, height, *args, _ = astuple(self)`
-            src = next((st for t, st in stores_in(ast.Module(body=rv.body, type_ignores=[])) if isinstance(t, ast.Name) and t.id == norm(a.value)), None)
-            if src is not None and norm(src.value) == "astuple(self)" and isinstance(src.targets[0], ast.Tuple):
-                names = [norm(e) for e in src.targets[0].elts]
-                if names[:2] == ["width", "height"] and names[2].startswith("*") and len(names) == 4:
-                    star_ok = True  # everything between (width, height) and the trailing `relative`
+            # *rest from `width, height, *rest, _ = astuple(self)`: everything between (width, height) and the trailing `relative`
+            if norm(trace(rv, a.value)) == "astuple(self)[2:-1]" and i == 2:
+                star_ok = True
         elif i < len(params):
             passed.add(params[i])
             if isinstance(a, ast.Attribute) and norm(a.value) == "self":
@@ -240,98 +278,207 @@ def run(ck, m):
     ok = [Fraction(*r) for r in rows] == [Fraction(0), Fraction(1, 2), Fraction(1)]
     ck.ob("R4", tab, ok, f"_ALIGN_RATIOS {rows} must be 0, 1/2, 1 for near/centre/far alignment", stmt="_ALIGN_RATIOS rows")
     ge = m.get(PD, "AlignedPadding._get_exact_dimensions_")
-    un = find_stmts("$$w, $$h, $$ha, $$va = astuple(self)[:4]", body_walk(ge))
-    ur = find_stmts("$$rw, $$rh = render_size", body_walk(ge))
-    ck.expect(len(un) == 1 and len(ur) == 1, "_get_exact_dimensions_: unpacking of (width, height, h_align, v_align) / render_size not recognised")
     rets = [r for r in body_walk(ge) if isinstance(r, ast.Return) and isinstance(r.value, ast.Tuple) and len(r.value.elts) == 4]
     ck.expect(len(rets) == 1, "_get_exact_dimensions_: `return left, top, right, bottom` not recognised")
-    if len(un) == 1 and len(ur) == 1 and len(rets) == 1:
-        nb = {**b2s(un[0][1]), **b2s(ur[0][1])}
-        out = [norm(e) for e in rets[0].value.elts]
-        for axis, mn, rs, al, near_i, far_i in (("horizontal", nb["w"], nb["rw"], nb["ha"], 0, 2), ("vertical", nb["h"], nb["rh"], nb["va"], 1, 3)):
-            iff = next((st for st in ge.body if isinstance(st, ast.If) and match_expr(f"{mn} > {rs}", st.test) is not None), None)
-            ck.expect(iff is not None, f"_get_exact_dimensions_: `if {mn} > {rs}:` ({axis}) not recognised")
-            if iff is None:
+    if len(rets) == 1:
+        comp = [trace(ge, e_) for e_ in rets[0].value.elts]
+        A = "astuple(self)[:4]"
+        for axis, mi, ri, ali, near_i, far_i in (("horizontal", 0, 0, 2, 0, 2), ("vertical", 1, 1, 3, 1, 3)):
+            mn, rs, al = f"{A}[{mi}]", f"render_size[{ri}]", f"{A}[{ali}]"
+            near, far = comp[near_i], comp[far_i]
+            bn = match_expr(f"$N if {mn} > {rs} else 0", near)
+            bf = match_expr(f"$F if {mn} > {rs} else 0", far)
+            ck.expect(bn is not None and bf is not None, f"_get_exact_dimensions_[{axis}]: margins are not `<amount> if <minimum> > <render size> else 0` (near `{norm(near)[:90]}`)")
+            if bn is None or bf is None:
                 continue
-            pads = find_stmts("$$pad = $a - $b", iff.body)
-            tb = find_stmts(f"$$n, $$d = _ALIGN_RATIOS[{al}]", iff.body)
-            ck.ob("R4", iff, len(tb) == 1, f"{axis}: the ratio must be looked up as _ALIGN_RATIOS[{al}]", stmt=f"_get_exact_dimensions_[{axis}]: ratio row from {al}")
-            ck.ob("R4", iff, len(pads) >= 1 and norm(pads[0][1]["a"]) == mn and norm(pads[0][1]["b"]) == rs, f"{axis}: the amount to distribute must be {mn} - {rs}", stmt=f"_get_exact_dimensions_[{axis}]: amount")
-            if len(tb) != 1 or not pads:
+            N, F = bn["N"], bf["F"]
+            bb = match_expr("$pad * $n // $d", N)
+            ck.ob("R4", rets[0], bb is not None and norm(bb["n"]) == f"_ALIGN_RATIOS[{al}][0]" and norm(bb["d"]) == f"_ALIGN_RATIOS[{al}][1]",
+                  f"{axis}: near margin must be pad * n // d with (n, d) = _ALIGN_RATIOS[<{'h' if mi == 0 else 'v'}_align>]; found `{norm(N)[:110]}`", stmt=f"_get_exact_dimensions_[{axis}]: near = pad*n//d, ratio row from alignment")
+            if bb is None:
                 continue
-            pad, n_, d_ = norm(pads[0][1]["pad"]), norm(tb[0][1]["n"]), norm(tb[0][1]["d"])
-            near, far = out[near_i], out[far_i]
-            an = next((st for st in iff.body if isinstance(st, ast.Assign) and norm(st.targets[0]) == near), None)
-            af = next((st for st in iff.body if isinstance(st, ast.Assign) and norm(st.targets[0]) == far), None)
-            ck.expect(an is not None and af is not None, f"_get_exact_dimensions_[{axis}]: assignments of {near}/{far} not found")
-            if an is None or af is None:
-                continue
-            ck.ob("R4", an, match_expr(f"{pad} * {n_} // {d_}", an.value) is not None, f"{axis}: near margin `{near}` must be {pad}*{n_}//{d_}; found `{norm(an.value)}`", stmt=f"_get_exact_dimensions_[{axis}]: near = pad*n//d")
             try:
-                okf = equal(af.value, parse(f"{pad} - {near}"))
-                dtxt = diff(af.value, parse(f"{pad} - {near}"))
+                okp = equal(bb["pad"], parse(f"{mn} - {rs}"))
+            except NotPoly:
+                okp = False
+            ck.ob("R4", rets[0], okp, f"{axis}: the amount to distribute must be <minimum> - <render size>; found `{norm(bb['pad'])[:80]}`", stmt=f"_get_exact_dimensions_[{axis}]: amount")
+            try:
+                okf = equal(F, ast.BinOp(left=bb["pad"], op=ast.Sub(), right=N))
+                dtxt = diff(F, ast.BinOp(left=bb["pad"], op=ast.Sub(), right=N))
             except NotPoly:
                 okf, dtxt = False, "?"
-            ck.ob("R4", af, okf, f"{axis}: far margin `{far}` must be {pad} - {near} so that the margins add up to the amount; found `{norm(af.value)}` (differs by {dtxt})", stmt=f"_get_exact_dimensions_[{axis}]: far = pad - near")
-            els = iff.orelse
-            ck.ob("R4", iff, len(els) == 1 and match_stmt(f"{near} = {far} = 0", els[0]) is not None or (len(els) == 1 and match_stmt(f"{far} = {near} = 0", els[0]) is not None),
-                  f"{axis}: no padding when the minimum is not larger than the render size", stmt=f"_get_exact_dimensions_[{axis}]: else zero")
+            ck.ob("R4", rets[0], okf, f"{axis}: far margin must be pad - near so that the margins add up to the amount; found `{norm(F)[:90]}` (differs by {dtxt})", stmt=f"_get_exact_dimensions_[{axis}]: far = pad - near")
 
     # ---- R5 ----------------------------------------------------------------------------
-    for q, sizev in (("Renderable.render", "frame.render_size"), ("Renderable.draw", "frame.render_size")):
+    for q in ("Renderable.render", "Renderable.draw"):
         f = m.get(RN, q)
-        pads = [c for c in body_walk(f) if isinstance(c, ast.Call) and norm(c.func) == "padding.pad"]
-        ck.ob("R5", f, len(pads) == 1 and [norm(a) for a in pads[0].args] == ["frame.render_output", "frame.render_size"], f"{q}: pad() must receive the unpadded output and the unpadded size", stmt=f"{q}: pad(frame.render_output, frame.render_size)")
-        ie = next((n for n in body_walk(f) if isinstance(n, ast.IfExp) and "padded_size" in norm(n.test)), None)
-        ck.ob("R5", ie or f, ie is not None and norm(ie.test) == "frame.render_size == padded_size" and (norm(ie.body) in ("frame", "frame.render_output")), f"{q}: pad iff the padded size differs from the render size", stmt=f"{q}: pads iff sizes differ")
-        ps = next((s for s in body_walk(f) if isinstance(s, ast.Assign) and norm(s.targets[0]) == "padded_size"), None)
-        ck.ob("R5", ps or f, ps is not None and norm(ps.value) == "padding.get_padded_size(frame.render_size)", f"{q}: padded size from the same padding and the frame's size", stmt=f"{q}: padded_size computed from the frame")
+        pads = [c for c in body_walk(f) if isinstance(c, ast.Call) and isinstance(c.func, ast.Attribute) and c.func.attr == "pad" and len(c.args) == 2]
+        ck.expect(len(pads) == 1, f"{q}: the single `<padding>.pad(output, size)` call not recognised")
+        if len(pads) != 1:
+            continue
+        c = pads[0]
+        P_, a0, a1 = norm(trace(f, c.func.value)), trace(f, c.args[0]), trace(f, c.args[1])
+        b0 = match_expr("$F.render_output", a0)
+        ck.ob("R5", enclosing_stmt(c), b0 is not None and norm(a1) == f"{norm(b0['F'])}.render_size", f"{q}: pad() must receive the unpadded output and the unpadded size of the same frame; found ({norm(a0)[:60]}, {norm(a1)[:60]})",
+              stmt=f"{q}: pad(frame.render_output, frame.render_size)")
+        if b0 is None:
+            continue
+        F_ = norm(b0["F"])
+        want = cx(ast.parse(f"{F_}.render_size == {P_}.get_padded_size({F_}.render_size)", mode="eval").body)
+        gs = [(t, b_) for t, b_ in guards(c) if "render_size" in norm(trace(f, t)) or "padded" in norm(t)]
+        ck.ob("R5", enclosing_stmt(c), len(gs) == 1 and gs[0][1] is False and cx(trace(f, gs[0][0])) == want,
+              f"{q}: the frame is padded iff its padded size (from the same padding and the frame's own size) differs from its render size; found condition(s) {[(norm(trace(f, t))[:90], b_) for t, b_ in gs]}",
+              stmt=f"{q}: pads iff sizes differ, padded size computed from the frame")
     fr = m.get(CM, "BaseImage._format_render")
-    sz = find_stmts("$$c, $$l = self.rendered_size", body_walk(fr))
-    ck.expect(len(sz) == 1, "_format_render: `cols, lines = self.rendered_size` not recognised")
-    if len(sz) == 1:
-        cols, lines = norm(sz[0][1]["c"]), norm(sz[0][1]["l"])
-        hif = next((st for st in fr.body if isinstance(st, ast.If) and match_expr(f"width > {cols}", st.test) is not None), None)
-        vif = next((st for st in fr.body if isinstance(st, ast.If) and match_expr(f"height > {lines}", st.test) is not None), None)
-        ck.expect(hif is not None and vif is not None, "_format_render: `if width > cols` / `if height > lines` not recognised")
-        if hif is not None and vif is not None:
-            def centre_branch(iff):
-                cur = iff.body[0]
-                while isinstance(cur, ast.If) and cur.orelse:
-                    nxt = cur.orelse
-                    if len(nxt) == 1 and isinstance(nxt[0], ast.If):
-                        cur = nxt[0]
-                    else:
-                        return nxt
-                return None
-            hc, vc = centre_branch(hif), centre_branch(vif)
-            ck.expect(hc is not None and vc is not None, "_format_render: centre branches not recognised")
-            if hc is not None:
-                l_ = find_stmts("$$l = ' ' * $e", hc)
-                lw = next((b_ for st, b_ in l_ if norm(b_["l"]) == "left"), None)
-                rw = next((b_ for st, b_ in l_ if norm(b_["l"]) == "right"), None)
-                ok = lw is not None and rw is not None
-                if ok:
-                    try:
-                        ok = equal(lw["e"], parse(f"(width - {cols}) // 2")) and equal(rw["e"], parse(f"width - {cols} - len(left)"))
-                    except NotPoly:
-                        ok = False
-                ck.ob("R5", hif, ok, "_format_render: a centred horizontal remainder must be split left = n//2, right = n - left (the odd column goes right)", stmt="_format_render: horizontal centre split")
-            if vc is not None:
-                tb_ = {norm(st.targets[0]): st.value for st in vc if isinstance(st, ast.Assign)}
-                ok = "top" in tb_ and "bottom" in tb_
-                if ok:
-                    try:
-                        ok = equal(tb_["top"], parse(f"(height - {lines}) // 2")) and equal(tb_["bottom"], parse(f"height - {lines} - top"))
-                    except NotPoly:
-                        ok = False
-                ck.ob("R5", vif, ok, "_format_render: a centred vertical remainder must be split top = n//2, bottom = n - top", stmt="_format_render: vertical centre split")
-            rp = find_exprs("render.replace('\\n', $f)", body_walk(fr))
-            ck.ob("R5", hif, len(rp) == 1 and isinstance(rp[0][1]["f"], ast.JoinedStr) and norm(rp[0][1]["f"]) == "f'{right}\\n{left}'",
-                  "_format_render: every line gets the right padding before and the left padding after its newline", stmt="_format_render: per-line padding")
+    COLS, LINES_ = "self.rendered_size[0]", "self.rendered_size[1]"
+    sums = emit.summaries(fr)
+    ck.expect(len(sums) == 1, f"_format_render: expected one return, found {len(sums)}")
+    rp = find_exprs("render.replace('\\n', $f)", body_walk(fr))
+    ck.expect(len(rp) == 1, "_format_render: `render.replace('\\n', ...)` not recognised")
+    n_cases = 0
+    if len(sums) == 1 and len(rp) == 1:
+        ret, facts0, term = sums[0]
+        rep_term = emit.Builder(fr).expr(rp[0][1]["f"])
+        cs = emit.cases(term, facts0, limit=8)
+        ck.expect(cs is not None, "_format_render: too many free conditions")
+        sp = lambda a_: isinstance(a_, emit.Lit) and a_.text == " "
+
+        def P(src):
+            return affine.poly(ast.parse(src, mode="eval").body)
+        for f, t in cs or []:
+            wide, tall = f.get(f"width > {COLS}"), f.get(f"height > {LINES_}")
+            if wide is None or tall is None or not (wide or tall):
+                continue
+            its = t.items if isinstance(t, emit.Seq) else [t]
+            k = next((i for i, x in enumerate(its) if isinstance(x, emit.Sym) and x.text.startswith("render")), None)
+            ck.expect(k is not None, f"_format_render: the render text is not a top-level fragment of the output shape `{repr(t)[:120]}`")
+            if k is None:
+                continue
+            n_cases += 1
+            tag = ", ".join(f"{a_}={b_}" for a_, b_ in sorted(f.items()))
+            pre, post = its[:k], its[k + 1:]
+            has_nl = lambda x: any(emit.is_nl(a_) for a_ in emit.atoms(x))
+            top, left = emit.Seq([x for x in pre if has_nl(x)]), emit.Seq([x for x in pre if not has_nl(x)])
+            bottom, right = emit.Seq([x for x in post if has_nl(x)]), emit.Seq([x for x in post if not has_nl(x)])
+            nl_, nr_ = emit.count(left, sp), emit.count(right, sp)
+            nt_, nb_ = emit.count(top, emit.is_nl), emit.count(bottom, emit.is_nl)
+            ck.expect(None not in (nl_, nr_, nt_, nb_), f"_format_render: padding amounts not determined in case [{tag}]")
+            if None in (nl_, nr_, nt_, nb_):
+                continue
+            if wide:
+                n = P(f"width - {COLS}")
+                ok = affine._add(nl_, nr_) == n
+                if f.get("h_align == '<'"):
+                    ok = ok and not nl_
+                elif f.get("h_align == '>'"):
+                    ok = ok and not nr_
+                else:
+                    ok = ok and nl_ == P(f"(width - {COLS}) // 2")
+                ck.ob("R5", ret, ok, f"_format_render [{tag}]: left + right padding must be width - cols (left aligned: all right; right aligned: all left; centred: left = n//2, right = n - left); "
+                      f"found left={affine.show(nl_)}, right={affine.show(nr_)}", stmt=f"_format_render: horizontal split [{tag}]")
+                rt_ = emit.specialise(rep_term, f)
+                rits = rt_.items if isinstance(rt_, emit.Seq) else [rt_]
+                kk = next((i for i, x in enumerate(rits) if emit.is_nl(x)), None)
+                okr = kk is not None and sum(1 for x in rits if emit.is_nl(x)) == 1 and repr(emit.Seq(rits[:kk])) == repr(right) and repr(emit.Seq(rits[kk + 1:])) == repr(left)
+                ck.ob("R5", ret, okr, f"_format_render [{tag}]: every line gets the right padding before and the left padding after its newline; found `{repr(rt_)[:100]}`", stmt=f"_format_render: per-line padding [{tag}]")
+            else:
+                ck.ob("R5", ret, not nl_ and not nr_, f"_format_render [{tag}]: no horizontal padding when the width is not larger", stmt=f"_format_render: no horizontal padding [{tag}]")
+            if tall:
+                n = P(f"height - {LINES_}")
+                ok = affine._add(nt_, nb_) == n
+                if f.get("v_align == '^'"):
+                    ok = ok and not nt_
+                elif f.get("v_align == '_'"):
+                    ok = ok and not nb_
+                else:
+                    ok = ok and nt_ == P(f"(height - {LINES_}) // 2")
+                st_, sb_ = emit.count(top, sp), emit.count(bottom, sp)
+                ok = ok and st_ == affine._mul(nt_, P("width")) and sb_ == affine._mul(nb_, P("width"))
+                ck.ob("R5", ret, ok, f"_format_render [{tag}]: top + bottom padding lines must be height - lines, each `width` spaces wide (top aligned: all below; bottom: all above; middle: top = n//2); "
+                      f"found top={affine.show(nt_)}, bottom={affine.show(nb_)}", stmt=f"_format_render: vertical split [{tag}]")
+            else:
+                ck.ob("R5", ret, not nt_ and not nb_, f"_format_render [{tag}]: no vertical padding when the height is not larger", stmt=f"_format_render: no vertical padding [{tag}]")
+    ck.expect(n_cases >= 12, f"_format_render: expected >= 12 padded cases, found {n_cases}")
     pp = m.get(PD, "Padding.pad")
+    sums = emit.summaries(pp)
     rp = find_exprs("render.replace('\\n', $f)", body_walk(pp))
-    ck.ob("R5", pp, len(rp) == 1 and norm(rp[0][1]["f"]) == "f'{right_padding}\\n{left_padding}'", "Padding.pad: per-line right/left padding around each newline", stmt="Padding.pad: per-line padding")
+    ck.expect(len(sums) >= 1 and len(rp) == 1, "Padding.pad: returns / `render.replace('\\n', ...)` not recognised")
+    n_cases = 0
+    if len(sums) >= 1 and len(rp) == 1:
+        rep_term = emit.Builder(pp).expr(rp[0][1]["f"])
+        D = "self._get_exact_dimensions_(render_size)"
+        allcases = []
+        for ret_, facts0, term in sums:
+            cs = emit.cases(term, facts0, limit=6)
+            ck.expect(cs is not None, "Padding.pad: too many free conditions")
+            allcases += [(ret_, f, t) for f, t in cs or []]
+        for ret, f, t in allcases:
+            its = t.items if isinstance(t, emit.Seq) else [t]
+            k = next((i for i, x in enumerate(its) if isinstance(x, emit.Sym) and x.text.startswith("render")), None)
+            if len(its) == 1 and k == 0:
+                # returned unchanged: only legitimate when all four margins are zero
+                ck.ob("R5", ret, all(f.get(f"{D}[{i}]") is False for i in range(4)), f"Padding.pad returns the render unpadded although a margin may be non-zero (case {f})", stmt="Padding.pad: unpadded only when all margins are 0")
+                continue
+            ck.expect(k is not None, f"Padding.pad: the render text is not a top-level fragment of `{repr(t)[:120]}`")
+            if k is None:
+                continue
+            n_cases += 1
+            zero = {f"{D}[{i}]": ast.Constant(value=0) for i in range(4) if f.get(f"{D}[{i}]") is False}
+
+            def P(src):
+                return affine.poly(_szc(ast.parse(src, mode="eval").body), zero)
+
+            def Pz(p_):   # re-normalise a count polynomial under the zero facts
+                return affine.poly(ast.parse(affine.show(p_) or "0", mode="eval").body, zero) if p_ else {}
+            tag = ", ".join(f"{a_.replace(D, 'D')}={b_}" for a_, b_ in sorted(f.items()))
+            pre, post = its[:k], its[k + 1:]
+            has_nl = lambda x: any(emit.is_nl(a_) for a_ in emit.atoms(x))
+            top, left = emit.Seq([x for x in pre if has_nl(x)]), emit.Seq([x for x in pre if not has_nl(x)])
+            bottom, right = emit.Seq([x for x in post if has_nl(x)]), emit.Seq([x for x in post if not has_nl(x)])
+            fill = f.get("self.fill")
+            ck.expect(fill is not None, f"Padding.pad: `self.fill` is not a condition of the output shape [{tag}]")
+            if fill is None:
+                continue
+            W = f"{D}[0] + render_size[0] + {D}[2]"
+            nt_, nb_ = emit.count(top, emit.is_nl), emit.count(bottom, emit.is_nl)
+            if fill:
+                isf = lambda a_: isinstance(a_, emit.Sym) and a_.text == "self.fill"
+                cnt = [emit.count(x, isf) for x in (left, right, top, bottom)]
+                ck.expect(None not in cnt and nt_ is not None and nb_ is not None, f"Padding.pad: fill counts not determined [{tag}]")
+                if None in cnt or nt_ is None or nb_ is None:
+                    continue
+                cl, cr, ct, cb = [_szp(c_, zero) for c_ in cnt]
+                ok = cl == P(f"{D}[0]") and cr == P(f"{D}[2]") and _szp(nt_, zero) == P(f"{D}[1]") and _szp(nb_, zero) == P(f"{D}[3]") and ct == P(f"({D}[1]) * ({W})") and cb == P(f"({D}[3]) * ({W})")
+                ck.ob("R5", ret, ok, f"Padding.pad [{tag}]: with a fill string the output must have `left` fills before and `right` fills after every line, `top` lines above and `bottom` lines below, "
+                      f"each left+width+right fills wide; found left={affine.show(cl)}, right={affine.show(cr)}, top lines={affine.show(nt_)}, bottom lines={affine.show(nb_)}", stmt=f"Padding.pad: margins with fill [{tag}]")
+            else:
+                def cuf(seg):
+                    return [a_.text for a_ in emit.atoms(seg) if isinstance(a_, emit.Sym) and a_.text.startswith("cursor_forward(")]
+
+                def arg_is(txt, want):
+                    try:
+                        return affine.poly(_szc(ast.parse(txt, mode="eval").body.args[0]), zero) == P(want)
+                    except Exception:
+                        return False
+                okl = (len(cuf(left)) == 1 and arg_is(cuf(left)[0], f"{D}[0]")) or (not cuf(left) and f.get(f"{D}[0]") is False)
+                okr_ = (len(cuf(right)) == 1 and arg_is(cuf(right)[0], f"{D}[2]")) or (not cuf(right) and f.get(f"{D}[2]") is False)
+                ct = emit.count(top, lambda a_: isinstance(a_, emit.Sym) and a_.text.startswith("cursor_forward(") and arg_is(a_.text, W))
+                cb = emit.count(bottom, lambda a_: isinstance(a_, emit.Sym) and a_.text.startswith("cursor_forward(") and arg_is(a_.text, W))
+                ck.expect(None not in (ct, cb, nt_, nb_), f"Padding.pad: line counts not determined [{tag}]")
+                if None in (ct, cb, nt_, nb_):
+                    continue
+                ok = okl and okr_ and _szp(nt_, zero) == P(f"{D}[1]") and _szp(nb_, zero) == P(f"{D}[3]") and _szp(ct, zero) == P(f"{D}[1]") and _szp(cb, zero) == P(f"{D}[3]")
+                ck.ob("R5", ret, ok, f"Padding.pad [{tag}]: without fill the margins are cursor movements: CUF left before and CUF right after every line, `top`/`bottom` lines each CUF (left+width+right); "
+                      f"found left={cuf(left)}, right={cuf(right)}, top lines={affine.show(nt_)}, bottom lines={affine.show(nb_)}", stmt=f"Padding.pad: margins without fill [{tag}]")
+            if f.get(f"{D}[0]") or f.get(f"{D}[2]"):
+                hz = next((x for x in its[k:k + 1]), None)
+                ck.ob("R5", ret, isinstance(hz, emit.Sym) and hz.text.startswith(("render.replace(", "render__0.replace(")), f"Padding.pad [{tag}]: with a horizontal margin every line (not only the first/last) must be padded", stmt=f"Padding.pad: inner lines padded [{tag}]")
+                rt_ = emit.specialise(rep_term, f)
+                rits = rt_.items if isinstance(rt_, emit.Seq) else [rt_]
+                kk = next((i for i, x in enumerate(rits) if emit.is_nl(x)), None)
+                okp = kk is not None and sum(1 for x in rits if emit.is_nl(x)) == 1 and repr(emit.Seq(rits[:kk])) == repr(right) and repr(emit.Seq(rits[kk + 1:])) == repr(left)
+                ck.ob("R5", ret, okp, f"Padding.pad [{tag}]: per-line right/left padding around each newline; found `{repr(rt_)[:100]}`", stmt=f"Padding.pad: per-line padding [{tag}]")
+    ck.expect(n_cases >= 16, f"Padding.pad: expected >= 16 padded cases, found {n_cases}")
 
     from rules.c08 import rule_padded_size_maintained
     from rules.c09 import rule_padding_after_cache
@@ -350,6 +497,12 @@ MUTANTS = [
     M("swap-table-rows", PD, None, "_ALIGN_RATIOS = ((0, 1), (1, 2), (1, 1))", "_ALIGN_RATIOS = ((0, 1), (1, 1), (1, 2))", {"R4"}),
     M("right-off-by-one", PD, "AlignedPadding._get_exact_dimensions_", "right = padding_width - left", "right = padding_width - left - 1", {"R4"}),
     M("pad-with-padded-size", RN, "Renderable.render", "padding.pad(frame.render_output, frame.render_size)", "padding.pad(frame.render_output, padded_size)", {"R5"}),
+    M("pad-left-uses-right", PD, "Padding.pad", "left_padding = fill * left", "left_padding = fill * right", {"R5"}),
+    M("pad-top-uses-bottom", PD, "Padding.pad", "top_padding = f\"{cursor_forward(width)}\\n\" * top if top else \"\"", "top_padding = f\"{cursor_forward(width)}\\n\" * bottom if top else \"\"", {"R5"}),
+    M("pad-line-width", PD, "Padding.pad", "width = left + render_size.width + right", "width = left + render_size.width", {"R5"}),
+    M("pad-inner-lines-swapped", PD, "Padding.pad", "f\"{right_padding}\\n{left_padding}\"", "f\"{left_padding}\\n{right_padding}\"", {"R5"}),
+    M("format-render-centre-right", CM, "BaseImage._format_render", "right = \" \" * (width - cols - len(left))", "right = \" \" * ((width - cols) // 2)", {"R5"}),
+    M("format-render-top-bottom", CM, "BaseImage._format_render", "bottom = height - lines - top", "bottom = height - lines", {"R5"}),
     M("twin-far-regrouped", PD, "AlignedPadding._get_exact_dimensions_", "right = padding_width - left", "right = -left + padding_width", twin=True),
     M("twin-rename-locals", PD, "AlignedPadding._get_exact_dimensions_", "numerator", "num", twin=True, count=0),
     M("twin-resolve-explicit", PD, "AlignedPadding.resolve", "        return type(self)(width, height, *args)", "        return type(self)(width, height, self.h_align, self.v_align, self.fill)", twin=True),
